@@ -56,7 +56,7 @@ func checkSenderFresh(w *World, r *Report, rule string) {
 	cr := w.Method("actor", "Context", "Respond")
 	if cr != nil {
 		okR := false
-		for _, ci := range w.callsIn(cr, EvCall("Send", w.Method("actor", "Engine", "Send"))) {
+		for _, ci := range w.callsIn(cr, EvCall("Send", w.Method("actor", "Engine", "Send"), w.sendAnchors().esend)) {
 			if w.pathOf(ci.Common().Args[1]) == "P0.sender" {
 				okR = true
 			}
